@@ -213,7 +213,9 @@ class SetMembersMixin:
                                 with suppress(ValueError):
                                     value = merge_stubs(member, value)  # type: ignore[arg-type]
                     for alias in member.aliases.values():
-                        with suppress(CyclicAliasError):
+                        # Registering the alias on its new target follows that target's own chain,
+                        # which can be unresolvable when the new value is itself an alias.
+                        with suppress(AliasResolutionError, CyclicAliasError):
                             alias.target = value
             self.members[name] = value  # type: ignore[attr-defined]
             if self.is_collection:  # type: ignore[attr-defined]
